@@ -471,6 +471,7 @@ func TestCheck(t *testing.T) {
 	bubble.SetT(t)
 	r := report.Start(t, "C20")
 	defer r.Finish()
+	bubble.WatchDeadlocks(3, func(frame, dump string) { r.DeadlockVerdict("c20", frame, dump) })
 	_ = math.MaxInt64
 
 	fail := func(err error, what interface{}) {
